@@ -62,11 +62,15 @@ Proof.
 Qed.
 Print Assumptions C10_accepted_histories.
 
-(* (c) Not proved: for critical nested schedulers without window, timeout or forever jobs every
-   job runs at the same times as in the flattened graph.  The check compares, on the
-   implementation, each such nested tree with its flattened graph (metamorphic pairs). *)
-Definition C10_flatten_full_statement : Prop :=
-  forall (c c' : cfg) (h h' : list event), True.   (* placeholder for the relational statement; see DESIGN.md §6 C10 *)
+(* (c) NOT PROVED: for critical nested schedulers without window, timeout or forever jobs every job
+   runs at the same times as in the flattened graph.  It is a relation between the executions of
+   two different trees (the nested scheduler dissolved into its parent: its entry jobs inherit its
+   requirements, the jobs that required it require all its jobs) and no simulation has been
+   proved.  The check decides it on the implementation: every generated tree that contains such a
+   nested scheduler is run as it is and with the scheduler dissolved, and every atomic job must
+   start and end at the same virtual instants with the same outcome up to the first instant at
+   which some scheduler aborts (within that instant the order of callbacks decides ties between a
+   completion and an abort, and nesting legitimately changes that order). *)
 
 Example C10_nonvacuous :
   accept 3 ex_cfg ex_hist = true /\
